@@ -35,7 +35,7 @@
     ThreadPool(0, m): m gated jobs, wait until all workers are idle, startAWorker() x k and
     adjustPoolsize(min=max): `pool.workers` and the number of live pool threads (counted by a
     threadFactory wrapper) never exceed max; after lowering max the pool comes down to it.
-Application code re-enters and misbehaves: in (a) the 3rd task submits a child task from inside the
+Application code re-enters and misbehaves: in (a) the 1st task submits a child task from inside the
 worker (accepted -> must run once; after quit -> AlreadyQuit); in (b) tasks submit a child from the
 task body or from onResult, onResult callbacks raise (Exception and SystemExit) after recording, and
 30 % of the pools get a second burst after a resize (left-over state).  Exactly-once applies to
@@ -140,6 +140,8 @@ class Task:
                 w.team.do(child)
                 child.accepted = True
                 w.ctx.count("tasks_submitted_from_a_task")
+                if w.quit_called:
+                    w.bad("accepted-after-quit", "Team.do() called from inside a running task after quit() did not raise AlreadyQuit", task=self.i)
             except AlreadyQuit:
                 w.ctx.count("task_submissions_refused_after_quit")
         if self.raises:
@@ -278,8 +280,8 @@ class TeamWorld:
         acts = []
         if not self.quit_called:
             if self.n_do < MAX_TASKS:
-                # 1st task succeeds, 2nd raises, 3rd submits a child task from inside the worker
-                acts.append(("do", ("ok", "raise", "spawn")[min(self.n_do, 2)]))
+                # 1st task submits a child task from inside the worker, 2nd raises, 3rd succeeds
+                acts.append(("do", ("spawn", "raise", "ok")[min(self.n_do, 2)]))
             if self.budget["grow"]:
                 acts += [("grow", 1), ("grow", 2)]
             if self.budget["shrink"]:
